@@ -295,8 +295,11 @@ class C11(Check):
         def prop(ga, data):
             g, alpha = ga
             alpha = ''.join(sorted(set(alpha)))[:6] or 'ab'
-            texts = gens.all_inputs(alpha[:4], 3) + data.draw(st.lists(st.text(alphabet=alpha, min_size=1, max_size=9),
-                                                                      min_size=15, max_size=15))
+            # a line break is in every alphabet: error positions on a newline character are where
+            # line/column bookkeeping (and anything guarded by `assert`, which the in-memory
+            # compilation strips) behaves specially
+            texts = gens.all_inputs(alpha[:3] + '\n', 3) + data.draw(st.lists(st.text(alphabet=alpha + '\n\n', min_size=1, max_size=9),
+                                                                             min_size=15, max_size=15))
             if g.mode == 'bytes':
                 texts = [t.encode('latin-1') for t in texts]
             if runner.over_budget(res):
